@@ -27,6 +27,8 @@ def run(chk):
     from ..core.report import Check
     e6.run_S2(chk)
 
+    from . import e10
+    e10.run_U(chk, ("yastn.tensor.linalg", "yastn.tensor._merging"), floor1=5, floor2=1)
 
 MUTANTS = [
     ("qr: R gets meta-fusion of the left group", "yastn/tensor/linalg.py", "    Rmfs = ((1,),) + tuple(a.mfs[ii] for ii in out_mr)", "    Rmfs = ((1,),) + tuple(a.mfs[ii] for ii in out_ml)", "L3"),
